@@ -646,32 +646,43 @@ Section ShimProofs.
     apply py_payload_frame; [exact Hp|lia].
   Qed.
 
-  (* ---------- laws of the primitives (explicit premises of the T3 theorems that use them) ------ *)
-  (* length preservation *)
-  Hypothesis cenc_len : forall c x, zlen (snd (cenc c x)) = zlen x.
-  Hypothesis cdec_len : forall c x, zlen (snd (cdec c x)) = zlen x.
-  (* decryption inverts encryption from the same state, and ends in the same state (block-aligned data) *)
-  Hypothesis cdec_cenc : forall c x, zlen x mod bs = 0 -> cdec c (snd (cenc c x)) = (fst (cenc c x), x).
-  (* decrypting a block-aligned prefix and then the block-aligned rest = decrypting at once *)
-  Hypothesis cdec_split : forall c a b, zlen a mod bs = 0 -> zlen b mod bs = 0 ->
-    cdec c (a ++ b) = (fst (cdec (fst (cdec c a)) b), snd (cdec c a) ++ snd (cdec (fst (cdec c a)) b)).
-  Hypothesis tag_len : forall sq x, zlen (tag sq x) = macsz.
-  (* GCM: header in clear in front of the cipher text, tag of macsz bytes, verify_and_decrypt of
-     encrypt_and_sign from the same state succeeds and ends in the same state *)
-  Hypothesis gcm_law : forall c h d, zlen h = 4 ->
-    let r := gcm_enc c h d in
-    zlen (fst (snd r)) = 4 + zlen d /\ firstn 4 (fst (snd r)) = h /\ zlen (snd (snd r)) = macsz /\
-    gcm_dec c h (skipn 4 (fst (snd r))) (snd (snd r)) = (fst r, Some d).
-  (* chacha: decrypt_header inverts the header encryption and verify_and_decrypt inverts
-     encrypt_and_sign under the same sequence number *)
-  Hypothesis cc_law : forall sq h d, zlen h = 4 ->
-    let r := cc_enc sq h d in
-    zlen (fst r) = 4 + zlen d /\ cc_hdr sq (firstn 4 (fst r)) = h /\ zlen (snd r) = macsz /\
-    cc_dec sq (firstn 4 (fst r)) (skipn 4 (fst r)) (snd r) = Some d.
+  (* facts shared by the three modes whose length field is not part of the encrypted blocks *)
+  Lemma split_out (out : bytes) L : zlen out = 4 + L -> bs <= L ->
+    let raw := firstn (Z.to_nat bs) out in
+    let rest := skipn (Z.to_nat bs) out in
+    raw ++ rest = out /\ firstn 4 raw = firstn 4 out /\ skipn 4 raw ++ rest = skipn 4 out.
+  Proof.
+    intros Hl HL raw rest.
+    assert (Hrr : raw ++ rest = out) by apply firstn_skipn.
+    assert (Hrawl : length raw = Z.to_nat bs) by (unfold raw, zlen in *; rewrite firstn_length; lia).
+    split; [exact Hrr|]. clearbody raw rest. subst out. split.
+    - apply firstn_firstn_app_le. lia.
+    - symmetry. apply skipn_app_le. lia.
+  Qed.
 
   Ltac finish_delivers Hrun Hpay :=
     eexists; split; [exact Hrun|]; cbn [ebuf eph est ecst eseq egot eshort]; rewrite Hpay;
     repeat split; try reflexivity; try congruence.
+
+  (* T3 per shim class.  The stream written by a sender in state (c, sq) for ANY list of well-formed
+     (payload, padding) pairs, cut into ANY chunks, makes a receiver that starts in the same state
+     deliver exactly the payloads, in order, without failure; sequence number advanced by the number of
+     packets modulo 2^32, cipher state equal to the sender's. *)
+  Definition stream_ok (m : emode) (pkts : list (bytes * bytes)) (c : cst) (sq : Z) (chunks : list bytes) : Prop :=
+    let s := fold_left (FEED m bs macsz) chunks (einit c sq) in
+    egot s = map fst pkts /\ est s = SOk /\ eseq s = (sq + Z.of_nat (length pkts)) mod M32 /\
+    ecst s = fst (fst (SENDS m c sq pkts)) /\ ebuf s = [] /\ eph s = EHdr /\ eshort s = false.
+
+  Section BasicLaws.
+  (* laws: length preservation; decryption inverts encryption from the same state and ends in the
+     same state (block-aligned data); decrypting a block-aligned prefix and then the block-aligned rest
+     equals decrypting at once; tag length *)
+  Hypothesis cenc_len : forall c x, zlen (snd (cenc c x)) = zlen x.
+  Hypothesis cdec_len : forall c x, zlen (snd (cdec c x)) = zlen x.
+  Hypothesis cdec_cenc : forall c x, zlen x mod bs = 0 -> cdec c (snd (cenc c x)) = (fst (cenc c x), x).
+  Hypothesis cdec_split : forall c a b, zlen a mod bs = 0 -> zlen b mod bs = 0 ->
+    cdec c (a ++ b) = (fst (cdec (fst (cdec c a)) b), snd (cdec c a) ++ snd (cdec (fst (cdec c a)) b)).
+  Hypothesis tag_len : forall sq x, zlen (tag sq x) = macsz.
 
   Lemma basic_delivers c sq payload padding :
     wf_pkt Basic (payload, padding) -> (0 < macsz \/ bs < 5 + zlen payload + zlen padding) ->
@@ -713,19 +724,23 @@ Section ShimProofs.
     finish_delivers Hrun Hpay.
   Qed.
 
-  (* facts shared by the three modes whose length field is not part of the encrypted blocks *)
-  Lemma split_out (out : bytes) L : zlen out = 4 + L -> bs <= L ->
-    let raw := firstn (Z.to_nat bs) out in
-    let rest := skipn (Z.to_nat bs) out in
-    raw ++ rest = out /\ firstn 4 raw = firstn 4 out /\ skipn 4 raw ++ rest = skipn 4 out.
+  Theorem enc_stream_received_basic pkts c sq chunks :
+    0 <= sq < M32 ->
+    Forall (fun p => wf_pkt Basic p /\ (0 < macsz \/ bs < 5 + zlen (fst p) + zlen (snd p))) pkts ->
+    concat chunks = concat (snd (SENDS Basic c sq pkts)) -> stream_ok Basic pkts c sq chunks.
   Proof.
-    intros Hl HL raw rest.
-    assert (Hrr : raw ++ rest = out) by apply firstn_skipn.
-    assert (Hrawl : length raw = Z.to_nat bs) by (unfold raw, zlen in *; rewrite firstn_length; lia).
-    split; [exact Hrr|]. clearbody raw rest. subst out. split.
-    - apply firstn_firstn_app_le. lia.
-    - symmetry. apply skipn_app_le. lia.
+    intros Hsq Hall Hcc.
+    apply (stream_received_of_delivers Basic
+             (fun p => wf_pkt Basic p /\ (0 < macsz \/ bs < 5 + zlen (fst p) + zlen (snd p)))); try assumption.
+    intros c0 sq0 payload padding [Hwf Hlate]. apply basic_delivers; assumption.
   Qed.
+
+  End BasicLaws.
+
+  Section ETMLaws.
+  Hypothesis cenc_len : forall c x, zlen (snd (cenc c x)) = zlen x.
+  Hypothesis cdec_cenc : forall c x, zlen x mod bs = 0 -> cdec c (snd (cenc c x)) = (fst (cenc c x), x).
+  Hypothesis tag_len : forall sq x, zlen (tag sq x) = macsz.
 
   Lemma etm_delivers c sq payload padding :
     wf_pkt ETM (payload, padding) ->
@@ -758,6 +773,24 @@ Section ShimProofs.
     finish_delivers Hrun Hpay.
   Qed.
 
+  Theorem enc_stream_received_etm pkts c sq chunks :
+    0 <= sq < M32 -> Forall (wf_pkt ETM) pkts ->
+    concat chunks = concat (snd (SENDS ETM c sq pkts)) -> stream_ok ETM pkts c sq chunks.
+  Proof.
+    intros Hsq Hall Hcc. apply (stream_received_of_delivers ETM (wf_pkt ETM)); try assumption.
+    intros c0 sq0 payload padding Hwf. apply etm_delivers; assumption.
+  Qed.
+
+  End ETMLaws.
+
+  Section GCMLaws.
+  (* header in clear in front of the cipher text, tag of macsz bytes, verify_and_decrypt of
+     encrypt_and_sign from the same state succeeds and ends in the same state *)
+  Hypothesis gcm_law : forall c h d, zlen h = 4 ->
+    let r := gcm_enc c h d in
+    zlen (fst (snd r)) = 4 + zlen d /\ firstn 4 (fst (snd r)) = h /\ zlen (snd (snd r)) = macsz /\
+    gcm_dec c h (skipn 4 (fst (snd r))) (snd (snd r)) = (fst r, Some d).
+
   Lemma gcm_delivers c sq payload padding :
     wf_pkt GCM (payload, padding) ->
     edelivers cst (DH GCM) (DP GCM) bs macsz c sq (snd (SENDF GCM c sq payload padding)) payload
@@ -785,6 +818,25 @@ Section ShimProofs.
     specialize (Hrun Hdp ltac:(rewrite Hpay; destruct payload; [unfold zlen in Hpl; simpl in Hpl; lia|discriminate])).
     finish_delivers Hrun Hpay.
   Qed.
+
+  Theorem enc_stream_received_gcm pkts c sq chunks :
+    0 <= sq < M32 -> Forall (wf_pkt GCM) pkts ->
+    concat chunks = concat (snd (SENDS GCM c sq pkts)) -> stream_ok GCM pkts c sq chunks.
+  Proof.
+    intros Hsq Hall Hcc. apply (stream_received_of_delivers GCM (wf_pkt GCM)); try assumption.
+    intros c0 sq0 payload padding Hwf. apply gcm_delivers; assumption.
+  Qed.
+
+  End GCMLaws.
+
+  Section ChachaLaws.
+  (* decrypt_header inverts the header encryption and verify_and_decrypt inverts encrypt_and_sign
+     under the same sequence number *)
+  Hypothesis cc_law : forall sq h d, zlen h = 4 ->
+    let r := cc_enc sq h d in
+    zlen (fst r) = 4 + zlen d /\ cc_hdr sq (firstn 4 (fst r)) = h /\ zlen (snd r) = macsz /\
+    cc_dec sq (firstn 4 (fst r)) (skipn 4 (fst r)) (snd r) = Some d.
+
 
   Lemma chacha_delivers c sq payload padding :
     wf_pkt Chacha (payload, padding) ->
@@ -814,42 +866,6 @@ Section ShimProofs.
     finish_delivers Hrun Hpay.
   Qed.
 
-  (* T3 per shim class.  The stream written by a sender in state (c, sq) for ANY list of well-formed
-     (payload, padding) pairs, cut into ANY chunks, makes a receiver that starts in the same state
-     deliver exactly the payloads, in order, without failure; sequence number advanced by the number of
-     packets modulo 2^32, cipher state equal to the sender's. *)
-  Definition stream_ok (m : emode) (pkts : list (bytes * bytes)) (c : cst) (sq : Z) (chunks : list bytes) : Prop :=
-    let s := fold_left (FEED m bs macsz) chunks (einit c sq) in
-    egot s = map fst pkts /\ est s = SOk /\ eseq s = (sq + Z.of_nat (length pkts)) mod M32 /\
-    ecst s = fst (fst (SENDS m c sq pkts)) /\ ebuf s = [] /\ eph s = EHdr /\ eshort s = false.
-
-  Theorem enc_stream_received_basic pkts c sq chunks :
-    0 <= sq < M32 ->
-    Forall (fun p => wf_pkt Basic p /\ (0 < macsz \/ bs < 5 + zlen (fst p) + zlen (snd p))) pkts ->
-    concat chunks = concat (snd (SENDS Basic c sq pkts)) -> stream_ok Basic pkts c sq chunks.
-  Proof.
-    intros Hsq Hall Hcc.
-    apply (stream_received_of_delivers Basic
-             (fun p => wf_pkt Basic p /\ (0 < macsz \/ bs < 5 + zlen (fst p) + zlen (snd p)))); try assumption.
-    intros c0 sq0 payload padding [Hwf Hlate]. apply basic_delivers; assumption.
-  Qed.
-
-  Theorem enc_stream_received_etm pkts c sq chunks :
-    0 <= sq < M32 -> Forall (wf_pkt ETM) pkts ->
-    concat chunks = concat (snd (SENDS ETM c sq pkts)) -> stream_ok ETM pkts c sq chunks.
-  Proof.
-    intros Hsq Hall Hcc. apply (stream_received_of_delivers ETM (wf_pkt ETM)); try assumption.
-    intros c0 sq0 payload padding Hwf. apply etm_delivers; assumption.
-  Qed.
-
-  Theorem enc_stream_received_gcm pkts c sq chunks :
-    0 <= sq < M32 -> Forall (wf_pkt GCM) pkts ->
-    concat chunks = concat (snd (SENDS GCM c sq pkts)) -> stream_ok GCM pkts c sq chunks.
-  Proof.
-    intros Hsq Hall Hcc. apply (stream_received_of_delivers GCM (wf_pkt GCM)); try assumption.
-    intros c0 sq0 payload padding Hwf. apply gcm_delivers; assumption.
-  Qed.
-
   Theorem enc_stream_received_chacha pkts c sq chunks :
     0 <= sq < M32 -> Forall (wf_pkt Chacha) pkts ->
     concat chunks = concat (snd (SENDS Chacha c sq pkts)) -> stream_ok Chacha pkts c sq chunks.
@@ -858,13 +874,113 @@ Section ShimProofs.
     intros c0 sq0 payload padding Hwf. apply chacha_delivers; assumption.
   Qed.
 
+  End ChachaLaws.
+
+End ShimProofs.
+
   (* send_packet's own padding rule yields well-formed packets (block size >= 8 as asyncssh uses) *)
-  Lemma pad_len_wf m payload padding : 8 <= bs -> payload <> [] ->
+Lemma pad_len_wf bs m payload padding : 8 <= bs -> payload <> [] ->
     zlen padding = pad_len (hdrlen m) bs (zlen payload) -> 1 + zlen payload + zlen padding < M32 ->
-    wf_pkt m (payload, padding).
+  wf_pkt bs m (payload, padding).
   Proof.
     intros H8 Hp Hpl Hlt. unfold wf_pkt. cbn [fst snd].
     destruct (pad_len_spec (hdrlen m) bs (zlen payload) H8 ltac:(destruct m; cbn; lia) (zlen_nonneg _)) as [A B].
     rewrite Hpl. repeat split; try assumption; [apply A|rewrite <- Hpl; exact Hlt].
   Qed.
-End ShimProofs.
+
+(* ---------- T4: the toy primitives satisfy every law assumed above ---------------------------- *)
+Lemma txor_length k : forall l p, length (txor k p l) = length l.
+Proof. induction l as [|b r IH]; intros p; simpl; [reflexivity|]. rewrite IH. reflexivity. Qed.
+
+Lemma txor_zlen k p l : zlen (txor k p l) = zlen l.
+Proof. unfold zlen. rewrite txor_length. reflexivity. Qed.
+
+Lemma txor_invol k : forall l p, txor k p (txor k p l) = l.
+Proof.
+  induction l as [|b r IH]; intros p; simpl; [reflexivity|].
+  rewrite IH, Z.lxor_assoc, Z.lxor_nilpotent, Z.lxor_0_r. reflexivity.
+Qed.
+
+Lemma txor_app k : forall a b p, txor k p (a ++ b) = txor k p a ++ txor k (p + zlen a) b.
+Proof.
+  induction a as [|x a IH]; intros b p; simpl.
+  - unfold zlen. simpl. rewrite Z.add_0_r. reflexivity.
+  - rewrite IH, zlen_cons. do 3 f_equal. lia.
+Qed.
+
+Lemma toy_crypt_len k c x : zlen (snd (toy_crypt k c x)) = zlen x.
+Proof. apply txor_zlen. Qed.
+
+Lemma toy_crypt_inv k c x : toy_crypt k c (snd (toy_crypt k c x)) = (fst (toy_crypt k c x), x).
+Proof. unfold toy_crypt. cbn [fst snd]. rewrite txor_invol, txor_zlen. reflexivity. Qed.
+
+Lemma toy_crypt_split k c a b :
+  toy_crypt k c (a ++ b) =
+  (fst (toy_crypt k (fst (toy_crypt k c a)) b), snd (toy_crypt k c a) ++ snd (toy_crypt k (fst (toy_crypt k c a)) b)).
+Proof. unfold toy_crypt. cbn [fst snd]. rewrite txor_app, zlen_app. f_equal. lia. Qed.
+
+Lemma toy_tag_len tl k sq x : zlen (toy_tag tl k sq x) = Z.of_nat tl.
+Proof. unfold toy_tag, zlen. rewrite map_length, seq_length. reflexivity. Qed.
+
+Lemma firstn_len_app (h x : bytes) : zlen h = 4 -> firstn 4 (h ++ x) = h /\ skipn 4 (h ++ x) = x.
+Proof.
+  intros H. assert (E : length h = 4%nat) by (unfold zlen in H; lia). split.
+  - rewrite firstn_app, E. simpl. rewrite <- E at 1. rewrite firstn_all. apply app_nil_r.
+  - rewrite skipn_app, E. simpl. rewrite <- E at 1. rewrite skipn_all. reflexivity.
+Qed.
+
+Lemma toy_gcm_law tl k c h d : zlen h = 4 ->
+  let r := toy_gcm_enc tl k c h d in
+  zlen (fst (snd r)) = 4 + zlen d /\ firstn 4 (fst (snd r)) = h /\ zlen (snd (snd r)) = Z.of_nat tl /\
+  toy_gcm_dec tl k c h (skipn 4 (fst (snd r))) (snd (snd r)) = (fst r, Some d).
+Proof.
+  intros H. unfold toy_gcm_enc, toy_gcm_dec. cbn [fst snd].
+  destruct (firstn_len_app h (txor (k + 101) (11 * c) d) H) as [A B].
+  rewrite zlen_app, txor_zlen, H, A, B, zlist_eqb_refl, txor_invol, toy_tag_len. repeat split.
+Qed.
+
+Lemma toy_cc_law tl k sq h d : zlen h = 4 ->
+  let r := toy_cc_enc tl k sq h d in
+  zlen (fst r) = 4 + zlen d /\ toy_cc_hdr k sq (firstn 4 (fst r)) = h /\ zlen (snd r) = Z.of_nat tl /\
+  toy_cc_dec tl k sq (firstn 4 (fst r)) (skipn 4 (fst r)) (snd r) = Some d.
+Proof.
+  intros H. unfold toy_cc_enc, toy_cc_dec. cbn [fst snd].
+  assert (H' : zlen (toy_cc_hdr k sq h) = 4) by (unfold toy_cc_hdr; rewrite txor_zlen; exact H).
+  destruct (firstn_len_app _ (txor (k + 77) (17 * sq + 64) d) H') as [A B].
+  rewrite firstn_skipn, zlist_eqb_refl, A, B, zlen_app, txor_zlen, H', txor_invol, toy_tag_len.
+  unfold toy_cc_hdr. rewrite txor_invol. repeat split.
+Qed.
+
+(* hence T3 holds for the model instantiated with the toy primitives without any premise on them *)
+Definition toy_stream_ok (m : emode) (bs : Z) (tl : nat) (k : Z) (pkts : list (bytes * bytes)) (c sq : Z)
+    (chunks : list bytes) : Prop :=
+  let s := fold_left (toy_feed m bs tl k) chunks (einit c sq) in
+  egot s = map fst pkts /\ est s = SOk /\ eseq s = (sq + Z.of_nat (length pkts)) mod M32 /\
+  ecst s = fst (fst (toy_send_stream m tl k c sq pkts)) /\ ebuf s = [] /\ eph s = EHdr /\ eshort s = false.
+
+Theorem toy_stream_received m bs tl k pkts c sq chunks :
+  4 <= bs -> 0 <= sq < M32 ->
+  Forall (fun p => wf_pkt bs m p /\ (m = Basic -> 0 < Z.of_nat tl \/ bs < 5 + zlen (fst p) + zlen (snd p))) pkts ->
+  concat chunks = concat (snd (toy_send_stream m tl k c sq pkts)) ->
+  toy_stream_ok m bs tl k pkts c sq chunks.
+Proof.
+  intros Hbs Hsq Hall Hcc. unfold toy_stream_ok, toy_feed, toy_send_stream in *.
+  destruct m.
+  - apply (enc_stream_received_basic Z (toy_crypt k) (toy_crypt k) (toy_tag tl k) (toy_gcm_enc tl k) (toy_gcm_dec tl k)
+             (toy_cc_enc tl k) (toy_cc_hdr k) (toy_cc_dec tl k) bs (Z.of_nat tl) Hbs ltac:(lia)
+             (toy_crypt_len k) (toy_crypt_len k) (fun c x _ => toy_crypt_inv k c x)
+             (fun c a b _ _ => toy_crypt_split k c a b) (toy_tag_len tl k)); try assumption.
+    eapply Forall_impl; [|exact Hall]. intros p [A B]. split; [exact A|apply B; reflexivity].
+  - apply (enc_stream_received_etm Z (toy_crypt k) (toy_crypt k) (toy_tag tl k) (toy_gcm_enc tl k) (toy_gcm_dec tl k)
+             (toy_cc_enc tl k) (toy_cc_hdr k) (toy_cc_dec tl k) bs (Z.of_nat tl) Hbs ltac:(lia)
+             (toy_crypt_len k) (fun c x _ => toy_crypt_inv k c x) (toy_tag_len tl k)); try assumption.
+    eapply Forall_impl; [|exact Hall]. intros p [A _]. exact A.
+  - apply (enc_stream_received_gcm Z (toy_crypt k) (toy_crypt k) (toy_tag tl k) (toy_gcm_enc tl k) (toy_gcm_dec tl k)
+             (toy_cc_enc tl k) (toy_cc_hdr k) (toy_cc_dec tl k) bs (Z.of_nat tl) Hbs ltac:(lia)
+             (toy_gcm_law tl k)); try assumption.
+    eapply Forall_impl; [|exact Hall]. intros p [A _]. exact A.
+  - apply (enc_stream_received_chacha Z (toy_crypt k) (toy_crypt k) (toy_tag tl k) (toy_gcm_enc tl k) (toy_gcm_dec tl k)
+             (toy_cc_enc tl k) (toy_cc_hdr k) (toy_cc_dec tl k) bs (Z.of_nat tl) Hbs ltac:(lia)
+             (toy_cc_law tl k)); try assumption.
+    eapply Forall_impl; [|exact Hall]. intros p [A _]. exact A.
+Qed.
